@@ -10,7 +10,7 @@ RULE = ('structured inputs x every non-empty mode subset (each of the 63 subsets
         'produced stream is parsed by the independent mode-tracking reference decoder and its latches are intersected with the '
         'disabled modes; characters carried in ASCII while ASCII is disabled must lie in the final four positions; '
         'non-trivial = some mode disabled and encoding succeeded; plus three deterministic families: capacity boundaries complete for the small symbols (every alphabet x every length delta x every tail kind, with/without FNC1 start, with the single symbol of that capacity alone in the list), codec constants (Base256 runs of 248..252 / 499..501 / 1554..1555 bytes, every alphabet border byte in every context), every non-empty mode subset x {FNC1, ECI, macro, none} prefix; and the regression corpus of minimised former witnesses')
-THEOREMS = 'C13_plan_modes_enabled, C13_latch_source, C13_fallback_is_ascii, C13_ascii_only_no_latch, C13_ascii_base256_only, C13_ascii_x12_only'
+THEOREMS = 'C13_plan_modes_enabled, C13_latch_source, C13_fallback_is_ascii, C13_ascii_only_no_latch, C13_ascii_base256_only, C13_ascii_x12_only, C13_ascii_c40_or_text_only'
 ASSUMPTIONS = ['refdec.py is an independent reading of ISO/IEC 16022 5.2']
 BIT = {'C40': 2, 'Text': 4, 'X12': 8, 'Edifact': 16, 'Base256': 32}
 
